@@ -342,7 +342,34 @@ Proof.
     + apply (line_no_newline pf (ks ++ [5])). right. exists ks, fs, (x :: e). repeat split; auto.
 Qed.
 
-(* the instance used by the correspondence (float values not recomputed), with the reader's identifier rule *)
+
+(* the canonical SAM line (Spec) is the SAM-standard spelling *)
+Lemma ser_sam_std (fs : row) (e : list Z) : ser_sam (fs ++ [FS e]) = sam_std_line fs e ++ [10].
+Proof.
+  unfold ser_sam, sam_std_line, line_of. rewrite map_app. cbn [map print_fld].
+  rewrite last_last, removelast_last. destruct e; reflexivity.
+Qed.
+(* SAM tables: eleven (any number >= 1 of) typed cells and the tags cell; reader o serialise = id *)
+Definition sam_row_ok pf (ks : list Z) (r : row) : Prop :=
+  exists fs e, r = fs ++ [FS e] /\ Forall2 (cell_ok pf) ks fs /\ ~ In 10 e.
+Theorem parse_serialise_sam pf (ks : list Z) (rows : list row) :
+  ks <> [] -> Forall (sam_row_ok pf ks) rows ->
+  parse_raw_with pf Sam (ks ++ [5]) (serialise Sam rows) = Some rows.
+Proof.
+  intros Hk Hrows.
+  assert (Hex : exists recs : list (row * list Z),
+             rows = map (fun p => fst p ++ [FS (snd p)]) recs
+             /\ Forall (fun p => Forall2 (cell_ok pf) ks (fst p) /\ ~ In 10 (snd p)) recs).
+  { induction Hrows as [|r rows [fs [e [-> [Hc He]]]] _ [recs [-> Hall]]].
+    - exists []. split; [reflexivity|constructor].
+    - exists ((fs, e) :: recs). split; [reflexivity|]. constructor; [split; assumption|exact Hall]. }
+  destruct Hex as [recs [-> Hall]].
+  etransitivity; [|apply (parse_sam_std pf ks recs Hk Hall)].
+  cbn [parse_raw_with]. do 3 f_equal.
+  unfold serialise. rewrite map_map. f_equal. apply map_ext. intros p. cbn [ser_row]. apply ser_sam_std.
+Qed.
+
+(* the instance used by the correspondence (float values not recomputed) *)
 Theorem parse_file_serialise_delim (schema : list Z) (rows : list row) :
   Forall (row_ok no_float_value schema) rows ->
   parse_file Delim schema (serialise Delim rows) = Some rows.
